@@ -67,7 +67,7 @@ def cases(tier, seed):
     Lmax = 3 if tier == "quick" else 4
     for n in range(1, Lmax + 1):
         for seq in itertools.permutations(OPS, n):
-            if tier == "quick" and n == 3 and hash(seq) % 4:
+            if tier == "quick" and n == 3 and __import__('zlib').crc32(' '.join(seq).encode()) % 4:
                 continue
             yield {"ops": list(seq), "engine": "async"}
     for seq in (["to_id"], ["to_sys", "to_gk"], ["to_bad", "to_amb"], ["stop_w", "to_id"], ["to_gk", "stop_w", "to_gk"]):
